@@ -10,12 +10,18 @@ Local Open Scope N_scope.
 Lemma no_panic_neq {A} (o : outcome A) : no_panic o -> forall p, o <> Panic p.
 Proof. destruct o; cbn; intros H p' E; try discriminate. exact H. Qed.
 
-Theorem read_ctpk_supported m f texs : conforms_ctpk f texs -> Forall supported3ds texs ->
+Theorem read_ctpk_supported m f texs : conforms_ctpk f texs -> Forall supported3ds_f32 texs ->
   read_ctpk m f = Ok (map decoded texs).
-Proof. intros Hc Hs. rewrite (read_ctpk_correct m f texs Hc). apply decode_all_supported, Hs. Qed.
-Theorem read_bch_supported m f texs : conforms_bch f texs -> Forall supported3ds texs ->
+Proof.
+  intros Hc Hs. destruct (supported_f32_split _ Hs) as (Hs1 & Hx).
+  rewrite (read_ctpk_correct m f texs Hc Hx). apply decode_all_supported, Hs1.
+Qed.
+Theorem read_bch_supported m f texs : conforms_bch f texs -> Forall supported3ds_f32 texs ->
   read_bch m f = Ok (map decoded texs).
-Proof. intros Hc Hs. rewrite (read_bch_correct m f texs Hc). apply decode_all_supported, Hs. Qed.
+Proof.
+  intros Hc Hs. destruct (supported_f32_split _ Hs) as (Hs1 & Hx).
+  rewrite (read_bch_correct m f texs Hc Hx). apply decode_all_supported, Hs1.
+Qed.
 Theorem read_cgfx_supported m f texs : conforms_cgfx f texs -> Forall supported3ds texs ->
   read_cgfx m f = Ok (map decoded texs).
 Proof. intros Hc Hs. rewrite (read_cgfx_correct m f texs Hc). apply decode_all_supported, Hs. Qed.
@@ -23,20 +29,22 @@ Theorem read_tpl_supported m f texs : conforms_tpl f texs -> Forall supportedtpl
   read_tpl m f = Ok (map tpl_decoded texs).
 Proof. intros Hc Hs. rewrite (read_tpl_correct m f texs Hc). apply decode_all_tpl_supported, Hs. Qed.
 
-Theorem ctpk_prefix_supported m f texs k : conforms_ctpk f texs -> Forall supported3ds texs -> k < lenN f ->
+Theorem ctpk_prefix_supported m f texs k : conforms_ctpk f texs -> Forall supported3ds_f32 texs -> k < lenN f ->
   (forall p, read_ctpk m (firstn (N.to_nat k) f) <> Panic p) /\
   (forall i t off, nth_error texs i = Some t -> ctpk_payload_at f (N.of_nat i) off -> cuts k off (t_data t) ->
      exists e, read_ctpk m (firstn (N.to_nat k) f) = Err e).
 Proof.
-  intros Hc Hs Hk. destruct (ctpk_prefix m f texs k Hc (supported_no_panic m texs Hs) Hk) as (Hn & He).
+  intros Hc Hs Hk. destruct (supported_f32_split _ Hs) as (Hs1 & Hx).
+  destruct (ctpk_prefix m f texs k Hc Hx (supported_no_panic m texs Hs1) Hk) as (Hn & He).
   split; [apply no_panic_neq, Hn|]. intros i t off Hi Hp Hcut. apply is_err_exists. eapply He; eauto.
 Qed.
-Theorem bch_prefix_supported m f texs k : conforms_bch f texs -> Forall supported3ds texs -> k < lenN f ->
+Theorem bch_prefix_supported m f texs k : conforms_bch f texs -> Forall supported3ds_f32 texs -> k < lenN f ->
   (forall p, read_bch m (firstn (N.to_nat k) f) <> Panic p) /\
   (forall i t off, nth_error texs i = Some t -> bch_payload_at f (N.of_nat i) off -> cuts k off (t_data t) ->
      exists e, read_bch m (firstn (N.to_nat k) f) = Err e).
 Proof.
-  intros Hc Hs Hk. destruct (bch_prefix m f texs k Hc (supported_no_panic m texs Hs) Hk) as (Hn & He).
+  intros Hc Hs Hk. destruct (supported_f32_split _ Hs) as (Hs1 & Hx).
+  destruct (bch_prefix m f texs k Hc Hx (supported_no_panic m texs Hs1) Hk) as (Hn & He).
   split; [apply no_panic_neq, Hn|]. intros i t off Hi Hp Hcut. apply is_err_exists. eapply He; eauto.
 Qed.
 Theorem cgfx_prefix_supported m f texs k : conforms_cgfx f texs -> Forall supported3ds texs -> k < lenN f ->
@@ -63,3 +71,64 @@ Theorem tpl_prefix_nohyp : forall m f texs k, conforms_tpl f texs -> k < lenN f 
      (tpl_image_at f (N.of_nat i) off /\ cuts k off (t_data t)) \/ (tpl_palette_at f (N.of_nat i) off /\ cuts k off (t_pal t)) ->
      is_err (read_tpl m (firstn (N.to_nat k) f))).
 Proof. intros m f texs k Hc. exact (tpl_prefix m f texs k Hc (tpl_all_no_panic texs)). Qed.
+
+(* ---------------------------------------------------------------- C20 composed with C19
+   pixel (X, Y) of texture i of a conforming container, in terms of the payload bytes of texture i *)
+From Mila Require Import Model.PixelSpec.
+
+Theorem ctpk_pixel m f texs i t X Y : conforms_ctpk f texs -> Forall supported3ds_f32 texs ->
+  nth_error texs i = Some t -> listed_color_format (t_fmt t) = true -> X < t_w t -> Y < t_h t ->
+  exists out px, read_ctpk m f = Ok out /\
+    nth_error out i = Some (mkTexture (t_name t) (t_w t) (t_h t) (flatten px)) /\
+    length px = N.to_nat (t_w t * t_h t) /\
+    nth_error px (N.to_nat (Y * t_w t + X)) =
+      Some (decode_color (element (bytes_per_element (t_fmt t)) (t_data t) (tiled_index (t_w t) X Y)) (t_fmt t)).
+Proof.
+  intros Hc Hs Hi Hl HX HY. destruct (supported_f32_split _ Hs) as (Hs1 & _).
+  assert (Ht : supported3ds t) by (rewrite Forall_forall in Hs1; apply Hs1; eapply nth_error_In; eauto).
+  destruct (decoded_pixels t Ht Hl) as (px & Ed & Lp & Hp).
+  exists (map decoded texs), px. split; [apply read_ctpk_supported; assumption|].
+  split; [rewrite <- Ed; apply map_nth_error, Hi|]. split; [exact Lp | apply Hp; assumption].
+Qed.
+Theorem bch_pixel m f texs i t X Y : conforms_bch f texs -> Forall supported3ds_f32 texs ->
+  nth_error texs i = Some t -> listed_color_format (t_fmt t) = true -> X < t_w t -> Y < t_h t ->
+  exists out px, read_bch m f = Ok out /\
+    nth_error out i = Some (mkTexture (t_name t) (t_w t) (t_h t) (flatten px)) /\
+    length px = N.to_nat (t_w t * t_h t) /\
+    nth_error px (N.to_nat (Y * t_w t + X)) =
+      Some (decode_color (element (bytes_per_element (t_fmt t)) (t_data t) (tiled_index (t_w t) X Y)) (t_fmt t)).
+Proof.
+  intros Hc Hs Hi Hl HX HY. destruct (supported_f32_split _ Hs) as (Hs1 & _).
+  assert (Ht : supported3ds t) by (rewrite Forall_forall in Hs1; apply Hs1; eapply nth_error_In; eauto).
+  destruct (decoded_pixels t Ht Hl) as (px & Ed & Lp & Hp).
+  exists (map decoded texs), px. split; [apply read_bch_supported; assumption|].
+  split; [rewrite <- Ed; apply map_nth_error, Hi|]. split; [exact Lp | apply Hp; assumption].
+Qed.
+Theorem cgfx_pixel m f texs i t X Y : conforms_cgfx f texs -> Forall supported3ds texs ->
+  nth_error texs i = Some t -> listed_color_format (t_fmt t) = true -> X < t_w t -> Y < t_h t ->
+  exists out px, read_cgfx m f = Ok out /\
+    nth_error out i = Some (mkTexture (t_name t) (t_w t) (t_h t) (flatten px)) /\
+    length px = N.to_nat (t_w t * t_h t) /\
+    nth_error px (N.to_nat (Y * t_w t + X)) =
+      Some (decode_color (element (bytes_per_element (t_fmt t)) (t_data t) (tiled_index (t_w t) X Y)) (t_fmt t)).
+Proof.
+  intros Hc Hs1 Hi Hl HX HY.
+  assert (Ht : supported3ds t) by (rewrite Forall_forall in Hs1; apply Hs1; eapply nth_error_In; eauto).
+  destruct (decoded_pixels t Ht Hl) as (px & Ed & Lp & Hp).
+  exists (map decoded texs), px. split; [apply read_cgfx_supported; assumption|].
+  split; [rewrite <- Ed; apply map_nth_error, Hi|]. split; [exact Lp | apply Hp; assumption].
+Qed.
+Theorem tpl_pixel m f texs i t x y : conforms_tpl f texs -> Forall supportedtpl texs ->
+  nth_error texs i = Some t -> x < t_w t -> y < t_h t ->
+  exists out px, read_tpl m f = Ok out /\
+    nth_error out i = Some (mkTexture [] (t_w t) (t_h t) (flatten px)) /\
+    length px = N.to_nat (t_w t * t_h t) /\
+    nth_error px (N.to_nat (y * t_w t + x)) =
+      Some (decode_rgb5a3_pixel (be16_at (t_pal t) (nth (N.to_nat (ci8_index (t_w t) x y)) (t_data t) 0))).
+Proof.
+  intros Hc Hs Hi Hx Hy.
+  assert (Ht : supportedtpl t) by (rewrite Forall_forall in Hs; apply Hs; eapply nth_error_In; eauto).
+  destruct (tpl_decoded_pixels t Ht) as (px & _ & Ed & Lp & Hp).
+  exists (map tpl_decoded texs), px. split; [apply read_tpl_supported; assumption|].
+  split; [rewrite <- Ed; apply map_nth_error, Hi|]. split; [exact Lp | apply Hp; assumption].
+Qed.
